@@ -57,6 +57,7 @@ dtz_forgetz(struct dt_dt_s d, zif_t zone)
 	dt_ssexy_t d_unix;
 	dt_ssexy_t d_locl;
 	int32_t zdiff;
+	unsigned int lsec = 0U;
 
 	if (dt_unk_p(d) || dt_sandwich_only_d_p(d)) {
 		/* we need date/times to do the conversion */
@@ -69,9 +70,24 @@ dtz_forgetz(struct dt_dt_s d, zif_t zone)
 		return d;
 	}
 
+	/* second 60 of a minute runs into the next minute's stamp, convert
+	 * second 59 and hand the rest back */
+	if (UNLIKELY(dt_sandwich_p(d) && d.t.hms.s >= 60U)) {
+		lsec = d.t.hms.s - 59U;
+		d.t.hms.s = 59U;
+	}
+
 	/* convert date/time part to unix stamp */
 	d_locl = dt_to_unix_epoch(d);
 	d_unix = zif_utc_time(zone, d_locl);
+	if (lsec && zif_local_time(zone, d_unix + 1) - d_locl > 1) {
+		/* a time scale that steps with the leap second (TAI, GPS),
+		 * there is no second 60 there */
+		d.t.hms.s += lsec;
+		lsec = 0U;
+		d_locl = dt_to_unix_epoch(d);
+		d_unix = zif_utc_time(zone, d_locl);
+	}
 	if (LIKELY((zdiff = d_unix - d_locl))) {
 		/* let dt_dtadd() do the magic */
 #if defined HAVE_ANON_STRUCTS_INIT
@@ -91,6 +107,7 @@ dtz_forgetz(struct dt_dt_s d, zif_t zone)
 			d.zdiff = (uint16_t)(-zdiff / ZDIFF_RES);
 		}
 	}
+	d.t.hms.s += lsec;
 	return d;
 }
 
@@ -122,9 +139,11 @@ dtz_enrichz(struct dt_dt_s d, zif_t zone)
 	/* convert date/time part to unix stamp */
 	d_unix = dt_to_unix_epoch(d);
 	d_locl = zif_local_time(zone, d_unix);
-	if (lsec) {
-		/* hand the inserted second back */
+	if (lsec && zif_local_time(zone, d_unix + 1) - d_locl > 1) {
+		/* a time scale that steps with the leap second (TAI, GPS),
+		 * the inserted second is the label after 23:59:59 there */
 		d_locl += lsec;
+		lsec = 0U;
 	}
 	if (LIKELY((zdiff = d_locl - d_unix))) {
 		/* let dt_dtadd() do the magic */
@@ -148,6 +167,9 @@ dtz_enrichz(struct dt_dt_s d, zif_t zone)
 		d.zdiff = 0U;
 		d.neg = 0U;
 	}
+	/* civil zones are whole minutes off, the inserted second stays
+	 * second 60 of its minute */
+	d.t.hms.s += lsec;
 	return d;
 }
 
